@@ -248,6 +248,24 @@ def stream_cases(rnd, n, tmp):
             with cm:
                 c = _stream_case(via, via0, plan, recs, written, tmp, gen.fixed_streams_intent()[si] if si < nfixed else None)
             cases.append(c)
+    # typed LISTS changed in place after the record was made (append / extend / item assignment store the plain value): what
+    # is written is the list as the field type holds such values -- the same as a record constructed with the final list
+    ML = RecordDescriptor("s/mutlists", [("path[]", "paths"), ("command[]", "cmds"), ("digest[]", "digs"), ("string[]", "names"), ("varint", "n")])
+    MD5 = "d41d8cd98f00b204e9800998ecf8427e"
+    final = dict(paths=["/a", "/raw/appended", "ab"], cmds=["ls -l", "cat /etc/passwd"], digs=[(MD5, None, None), (None, None, "e3b0c44298fc1c149afbf4c8996fb92427ae41e4649b934ca495991b7852b855")], names=["x", "y"])
+    for how in ("append", "extend", "setitem"):
+        mut = ML(paths=["/a"], cmds=["ls -l"], digs=[(MD5, None, None)], names=["x"], n=1, _generated=gen.GEN)
+        if how == "append":
+            mut.paths.append("/raw/appended"); mut.paths.append("ab"); mut.cmds.append("cat /etc/passwd"); mut.digs.append(final["digs"][1]); mut.names.append("y")
+        elif how == "extend":
+            mut.paths.extend(["/raw/appended", "ab"]); mut.cmds.extend(["cat /etc/passwd"]); mut.digs.extend([final["digs"][1]]); mut.names.extend(["y"])
+        else:
+            mut = ML(paths=["/a", "/zz", "zz"], cmds=["ls -l", "zz"], digs=[(MD5, None, None), (MD5, None, None)], names=["x", "zz"], n=1, _generated=gen.GEN)
+            mut.paths[1], mut.paths[2], mut.cmds[1], mut.digs[1], mut.names[1] = "/raw/appended", "ab", "cat /etc/passwd", final["digs"][1], "y"
+        expect = ML(**final, n=1, _generated=gen.GEN)
+        for via0 in ("lowlevel", "path"):
+            c = _stream_case(via0, via0 + ":list-changed-in-place:" + how, [(mut, True)], [expect], [obs_key(expect)], tmp, None)
+            cases.append(c)
     return cases
 
 
